@@ -173,10 +173,12 @@ Lemma decide_prop_ok s ri :
   prop_decision_ok (session_policy s) ri (snd (decide s ri)) = true.
 Proof.
   destruct (decide s ri) as [s' d] eqn:E. cbn [snd]. unfold prop_decision_ok.
-  apply andb_true_iff; split.
+  apply andb_true_iff; split; [apply andb_true_iff; split|].
   - destruct (ri_idempotent ri) eqn:Hi; [reflexivity|]. cbn [orb].
     destruct (is_retry d) eqn:Hr; [|reflexivity]. cbn [negb orb].
     exact (decide_safe s ri s' d E Hi Hr).
+  - destruct d; try (now rewrite orb_true_r).
+    destruct (decide_ignore s ri s' _ E eq_refl) as [-> _]. reflexivity.
   - destruct s as [ds | w | ]; cbn [session_policy]; [| reflexivity |].
     + destruct (is_serial (ri_consistency ri)) eqn:Hs; [|reflexivity].
       destruct (decide_default_serial ds ri s' d E Hs) as [-> _]. reflexivity.
